@@ -41,7 +41,7 @@ func init() {
 // C06
 
 func partitionGrammar(t *simrt.Tape, service, product, suffix string) []string {
-	atoms := []string{"a", "b", "_", service, product, "_" + service + "_" + product, "_IK_", "1", "0", suffix, "a_" + service + "_" + product}
+	atoms := []string{"a", "b", "_", service, product, "_" + service + "_" + product, "_IK_", "1", "0", suffix, "a_" + service + "_" + product, "%s", "%", "/"}
 	mk := func() string {
 		n := 1 + t.Choose(3, "part.len")
 		var sb strings.Builder
